@@ -31,6 +31,21 @@ Proof.
   - apply negb_true_iff in H. apply Nat.leb_gt in H. lia.
   - apply Nat.leb_le. exact H.
 Qed.
+End RS.
+
+(* After fix edde4a5 the code never shrinks a course below its minimal size: the inverse computation is max(floor(..), num_min +
+   instructors).  For that shrink function FloatSane holds by construction, for EVERY forward function and room list. *)
+Definition fixed_shrink (courses : list course) (shrinkf : nat -> nat -> nat) (c r : nat) : nat :=
+  Nat.max (shrinkf c r) (c_min (crs courses c) + n_instr courses c).
+Theorem float_sane_fixed courses esize shrinkf rooms : FloatSane courses esize (fixed_shrink courses shrinkf) rooms.
+Proof. destruct rooms as [rs|]; simpl; [|exact I]. intros c r _ _ _. unfold fixed_shrink. apply Nat.le_max_r. Qed.
+
+Section RS2.
+Variables (courses : list course) (parts : list participant).
+Variable esize : nat -> nat -> nat.
+Variable shrinkf : nat -> nat -> nat.
+Notation nc := (nc courses). Notation crs := (crs courses).
+Notation FloatSaneOn := (FloatSaneOn courses esize shrinkf). Notation FloatSane := (FloatSane courses esize shrinkf).
 Variable R : list nat.
 Hypothesis FS : FloatSaneOn R.
 
@@ -137,7 +152,7 @@ Proof.
   - exfalso. eapply create_set_no_site; [exact Hrs|exact Hcl|exact Eal].
   - discriminate.
 Qed.
-End RS.
+End RS2.
 
 Section RS2.
 Variables (courses : list course) (parts : list participant).
